@@ -3,7 +3,8 @@
 From Coq Require Import QArith Qcanon List String Bool.
 Import ListNotations.
 From S2 Require Import Base.Num Base.Arr Model.Expr Model.Struct Model.Rates Spec.RatesSpec
-     Model.Run Model.Api Proofs.NumQc Proofs.ExprLemmas Proofs.ParamProofs Proofs.RunExt Proofs.ApiProofs Props.Examples.
+     Model.Run Model.Api Proofs.NumQc Proofs.ExprLemmas Proofs.ParamProofs Proofs.RunExt Proofs.InputsMinimal Proofs.ApiProofs Props.Examples.
+From S2 Require Import Model.Program.
 
 (* any expression (arithmetic, piecewise, interpolation, of parameters, time and state): replacing the
    named parameter k by the literal v = running with k := v *)
@@ -69,6 +70,32 @@ Theorem C09_inputs_sufficient_for_the_run :
     (forall k, In k (input_parameters m) -> p k = q k) -> run_model O m s p = run_model O m s q.
 Proof. exact input_parameters_sufficient. Qed.
 Print Assumptions C09_inputs_sufficient_for_the_run.
+
+(* "... exactly the set that is needed and ABLE TO INFLUENCE the results": the first half is the two theorems above; the
+   second half is FALSE of the model, as it is of the library (known_findings.json, superseded-infectiousness-parameter;
+   the check replays this witness on the implementation on every run).  The witness: SIR, stratification "age" multiplies
+   the infectiousness of its young I by Parameter "m", stratification "loc" then overwrites the infectiousness of I in
+   both of its strata.  The API builds it, it reports exactly {"m"}, and every run of it - both solvers, every
+   arithmetic - is the same for all pairs of environments. *)
+Theorem C09_inputs_minimal_refuted :
+  exists comps inf ops m,
+    build_ok 0 5 1 comps inf ops = Some m /\ (forall k, In k (input_parameters m) <-> k = "m"%string)
+    /\ forall (O : NumOps) (T : NumTheory O) (s : solver) (p q : env O), run_model O m s p = run_model O m s q.
+Proof. exact inputs_minimal_refuted. Qed.
+Print Assumptions C09_inputs_minimal_refuted.
+
+(* (what makes it so, for every model: a run depends on the infectiousness adjustments only through the vector they
+   evaluate to) *)
+Theorem C09_infectiousness_enters_as_a_vector :
+  forall (O : NumOps) (T : NumTheory O) (m : model) (s : solver) (p q : env O),
+    agree O (rate_exprs_but_infectiousness m) p q ->
+    compartment_infectiousness O m p = compartment_infectiousness O m q ->
+    agree O (flat_map params_of (init_exprs m)) p q ->
+    agree O (flat_map params_of (map snd (m_cvs m))) p q ->
+    agree O (flat_map params_of (request_param_exprs m)) p q ->
+    run_model O m s p = run_model O m s q.
+Proof. exact run_model_ext_inf. Qed.
+Print Assumptions C09_infectiousness_enters_as_a_vector.
 
 Local Open Scope string_scope.
 Example C09_nonvacuous :
